@@ -397,17 +397,10 @@ class Core:
     def entails(self, st: State, cond) -> bool:
         """quick solver check that the path condition implies `cond` (only a definite `unsat` of the
         negation counts)"""
-        sol = z3.Solver()
-        sol.set("timeout", 500)
-        for f in self.global_facts:
-            sol.add(f)
-        for f in st.pc:
-            sol.add(f)
-        sol.add(z3.Not(cond))
-        try:
-            return sol.check() == z3.unsat
-        except z3.Z3Exception:
-            return False
+        from .solve import quick_check, _has_quant
+        # quantifier-free part only (decidable, hence the same answer on every run): see StmtMixin.feasible
+        facts = [f for f in list(self.global_facts) + list(st.pc) if not _has_quant(f)]
+        return str(quick_check(facts + [z3.Not(cond)], 5000000)) == "unsat"
 
     # ------------------------------------------------------------------ obligations
     def oblige(self, st: State, goal, kind: str, text: str, name: Optional[str] = None, expect_sat=False):
